@@ -24,6 +24,7 @@ pub struct Params {
     /// replay / shrinking: stop the random phase after this many operations
     pub cut: Option<usize>,
     pub no_poison: bool,
+    pub suppress_refused: bool,
 }
 
 /// what a history contained, for the per-property non-triviality rules
@@ -129,6 +130,8 @@ pub struct Hist {
     pub merge_last_src: Option<u32>,
     pub merge_switches: u32,
     pub cut: Option<usize>,
+    /// twin run for C15: pushes the model predicts to be refused are not made
+    pub suppress_refused: bool,
 }
 
 pub fn msg_of(p: Box<dyn std::any::Any + Send>) -> String {
@@ -190,6 +193,7 @@ impl Hist {
             merge_last_src: None,
             merge_switches: 0,
             cut: None,
+            suppress_refused: false,
         }
     }
 
@@ -265,6 +269,7 @@ impl Hist {
             }
         }
         k.hold = *r.pick(&[1u8, 1, 1, 2, 3, 5]);
+        k.wake_on_ready = r.chance(1, 8);
         if self.kind.is_try() {
             k.fail = r.chance(1, 5);
         }
@@ -393,6 +398,7 @@ impl Hist {
         self.h(n_init as u64);
         self.h(start.unwrap_or(7) as u64);
         self.desc = format!("{}(ctor={}, cap={}, init={}, start={:?})", kind.name(), ctor_name(&ctor), self.cap, n_init, start);
+        *self.w.desc.borrow_mut() = self.desc.clone();
         let w = self.w.clone();
         let r = self.with_ctx(Ctx::InOther, || catch_unwind(AssertUnwindSafe(|| make(kind, ctor, cap, &ids, start))));
         drop(w);
@@ -540,7 +546,9 @@ impl Hist {
         let subj = self.subj.as_mut().unwrap();
         let prev = w.ctx.get();
         w.ctx.set(Ctx::InPoll);
+        world::beacon_phase(1);
         let r = catch_unwind(AssertUnwindSafe(|| subj.poll(&mut cx)));
+        world::beacon_phase(0);
         w.ctx.set(prev);
         self.flags.budget_hits += w.stats.points[5].get() - budget_before;
         self.last_start = start;
@@ -1020,17 +1028,28 @@ impl Hist {
         let prev = w.ctx.get();
         w.ctx.set(Ctx::InOther);
         let allocs_before = alloc::in_crate_allocs();
+        if self.suppress_refused && !accepts {
+            // twin run: the push the model says will be refused is not made at all
+            w.ctx.set(prev);
+            drop(crate::kids::Child::new(id));
+            self.flags.refused += 1;
+            return;
+        }
+        world::beacon_phase(2);
         let r = catch_unwind(AssertUnwindSafe(|| subj.push(how, id)));
+        world::beacon_phase(0);
         w.ctx.set(prev);
         if r.is_err() {
             // the panic machinery allocates (message, payload); that is not the crate's doing
             self.alloc_base += alloc::in_crate_allocs() - allocs_before;
         }
-        self.h(0xB0 + how as u64);
         bump(&w.stats.pushes);
         match r {
             Ok(Ok(())) => {
                 w.event(ev::PUSH, id as u64, how as u64);
+                // (refused pushes are not part of the history hash: a history and its twin
+                // without them must hash alike if a refusal really leaves no trace)
+                self.h(0xB0 + how as u64);
                 self.h(1);
                 if !accepts {
                     w.violation("C15", "accepted_when_full", format!("push of kid {id} accepted although the model says the subject is full ({})", self.desc));
@@ -1055,7 +1074,6 @@ impl Hist {
             }
             Ok(Err(back)) => {
                 w.event(ev::PUSH, id as u64, how as u64 | 1 << 8);
-                self.h(2);
                 bump(&w.stats.refused);
                 self.flags.refused += 1;
                 if back != id {
@@ -1072,7 +1090,6 @@ impl Hist {
             Err(p) => {
                 let m = msg_of(p);
                 w.event(ev::PUSH, id as u64, how as u64 | 2 << 8);
-                self.h(3);
                 self.flags.refused += 1;
                 if accepts {
                     w.violation("C15", "push_panicked_with_room", format!("push of kid {id} panicked although there is room: {m}"));
@@ -1238,10 +1255,15 @@ impl Hist {
         let bound = held + 2;
         let mut pendings = 0;
         let mut reached = false;
-        let wk = self.last_waker;
+        let mut wk = self.last_waker;
+        // an executor may hand out a fresh waker for every poll
+        let rotate = self.rng.chance(1, 3);
         let mut guard = 0;
         while pendings < bound && guard < 4 * bound + 16 {
             guard += 1;
+            if rotate {
+                wk = (wk + 1) % 3;
+            }
             match self.poll(wk) {
                 Last::Pending => {
                     pendings += 1;
@@ -1267,6 +1289,9 @@ impl Hist {
         }
         if reached {
             for _ in 0..2 {
+                if rotate {
+                    wk = (wk + 1) % 3;
+                }
                 if self.poll(wk) == Last::Pending && w.task_invoked_since(wk, self.last_start) {
                     w.violation("C14", "spurious_task_wake_when_idle", "idle collection woke its task again although nothing happened".into());
                 }
@@ -1440,12 +1465,14 @@ impl Hist {
         }
         if let Some(s) = self.subj.take() {
             w.event(ev::DROP_SUBJECT, 0, 0);
+            world::beacon_phase(3);
             let r = self.with_ctx(Ctx::InOther, || {
                 catch_unwind(AssertUnwindSafe(|| {
                     let _g = alloc::enter_crate();
                     drop(s)
                 }))
             });
+            world::beacon_phase(0);
             w.subject_dropped.set(true);
             if let Err(p) = r {
                 w.violation("C06", "drop_panicked", format!("dropping the subject panicked: {}", msg_of(p)));
@@ -1632,10 +1659,40 @@ fn up_script(r: &mut Rng, is_try: bool, small: bool) -> Vec<UpStep> {
     v
 }
 
-/// Run one random history and return what was observed.
+/// Run one random history; for the C15 profile a history that contained refused / panicking pushes
+/// is run a second time without them (same seed, same random draws) and must be
+/// indistinguishable: "a refusal leaves the held futures undisturbed".
 pub fn run_history(p: &Params, hist_index: u64) -> HistResult {
+    let mut r = run_history_once(p, hist_index);
+    if p.prop == 15 && !p.suppress_refused && r.flags.refused > 0 && matches!(r.kind, Kind::Fub | Kind::Fob | Kind::MergeB) && r.inconclusive.is_none() {
+        let mut q = p.clone();
+        q.suppress_refused = true;
+        q.trace = false;
+        let t = run_history_once(&q, hist_index);
+        let same = t.hash == r.hash && t.violations.len() == r.violations.len();
+        if !same && t.violations.is_empty() {
+            r.violations.push(Violation {
+                prop: "C15",
+                rule: "refused_push_left_a_trace",
+                detail: format!(
+                    "{}: the same history without its {} refused/panicking pushes behaves differently (yield/observation hash {:016x} vs {:016x}; violations with refusals: {:?})",
+                    r.desc,
+                    r.flags.refused,
+                    r.hash,
+                    t.hash,
+                    r.violations.iter().map(|v| format!("{}/{}", v.prop, v.rule)).collect::<Vec<_>>()
+                ),
+                clock: 0,
+            });
+        }
+    }
+    r
+}
+
+fn run_history_once(p: &Params, hist_index: u64) -> HistResult {
     let seed = mix(p.seed, hist_index);
     let mut h = Hist::new(seed, p.trace);
+    h.suppress_refused = p.suppress_refused;
     let w = h.w.clone();
     // fresh memory is filled with 0xA5 so that a never-written element is deterministically invalid
     alloc::set_poison(!p.no_poison);
